@@ -230,13 +230,16 @@ impl GraphInline {
                     format!("<{}>", url)
                 } else if self.is_ref() {
                     format!(
-                        "[{}]({}{})",
+                        "[{}]({})",
                         text,
-                        url.strip_suffix(".md").unwrap_or(url),
-                        options.refs_extension
+                        link_destination(&format!(
+                            "{}{}",
+                            url.strip_suffix(".md").unwrap_or(url),
+                            options.refs_extension
+                        ))
                     )
                 } else {
-                    format!("[{}]({})", text, url)
+                    format!("[{}]({})", text, link_destination(url))
                 }
             }
             GraphInline::Image(url, _, inlines) => {
@@ -430,6 +433,15 @@ impl GraphInline {
             GraphInline::Link(url, _, _, _) => Some(Key::from_file_name(url)),
             _ => None,
         }
+    }
+}
+
+// a destination that holds a space is only a destination between angle brackets
+fn link_destination(url: &str) -> String {
+    if url.contains(' ') {
+        format!("<{}>", url)
+    } else {
+        url.to_string()
     }
 }
 
